@@ -488,7 +488,7 @@ def inheritance_ir(uid=9100, ns2=True):
     def level(k, nsx):
         return [['m%d' % k, dict(U(), min_occurs=1, nillable=False)], ['o%d' % k, I(ge=0, le=9)],
                 ['r%d' % k, dict({'seq': I(), 'max': 2})], ['a%d' % k, {'array': U(max_len=3)}],
-                ['n%d' % k, dict(I(), min_occurs=1)]]
+                ['n%d' % k, dict(I(), min_occurs=1)], ['d%d' % k, {'seq': I(default=1), 'max': 3}]]
     types = [{'name': 'L0', 'ns': ns, 'base': None, 'has_xmldata': False,
               'fields': level(0, ns) + [['at0', {'attr': dict(U(), min_occurs=1)}], ['ao0', {'attr': I(ge=0, le=9)}]]},
              {'name': 'L1', 'ns': ns, 'base': 'L0', 'has_xmldata': False, 'fields': level(1, ns)},
